@@ -33,6 +33,11 @@ class BuiltinMixin:
                 self.effect(st, fr, "write", node)
                 st.env["$written"] = text
                 return SV(self.voc.NONE, "none")
+        if isinstance(fn, ast.Attribute) and ("str." + fn.attr) in self.side.assumed and fn.attr not in ("replace",) :
+            recv = self.ev(fn.value, st, fr)
+            if recv.pt == "any":
+                self.typing_assumptions += 1          # receiver of a str-only method is viewed as a str
+                return self.str_method(self.unbox(recv, "str"), fn.attr, [self.ev(a, st, fr) for a in node.args], {}, st, fr, node)
         if isinstance(fn, ast.Attribute) and ("method:" + fn.attr) in self.side.assumed:
             recv = self.ev(fn.value, st, fr)
             if recv.pt in ("any",) or recv.pt.startswith("obj:"):
@@ -331,7 +336,11 @@ class BuiltinMixin:
         for f in new_facts:       # facts produced while evaluating the predicate hold for every index
             st.facts.append(z3.ForAll([jj], z3.Implies(sub(rng), sub(f)), patterns=[v.sat(seq.t, jj)]))
         if combine == "any":
-            return z3.Exists([jj], z3.And(sub(rng), sub(b)), patterns=[v.sat(seq.t, jj)])
+            ex = z3.Exists([jj], z3.And(sub(rng), sub(b)), patterns=[v.sat(seq.t, jj)])
+            # logically redundant ground candidates (last / first element) so that E-matching has a witness term at hand
+            n = v.slen(seq.t)
+            at_ = lambda k: z3.substitute(z3.And(rng, b), (j, k))
+            return z3.Or(ex, at_(n - 1), at_(z3.IntVal(0)))
         return z3.ForAll([jj], z3.Implies(sub(rng), sub(b)), patterns=[v.sat(seq.t, jj)])
 
     def bi_any(self, node, st, fr):
@@ -428,7 +437,7 @@ class BuiltinMixin:
     # ------------------------------------------------------------------ spec-only functions (contract language)
     SPEC_ONLY = {"card", "implies", "iff", "forall", "exists", "subset", "set_eq", "old", "is_class", "keys_of",
                  "ty_is", "same_class", "unchanged", "fresh_obj", "no_effects", "effects", "attr", "sel", "tuple2", "sval", "ival",
-                 "local", "tl_get", "raw_tq_ok", "is_blank", "attr_of", "eq_str", "mro_of", "as_dict", "as_list", "as_set", "seq_len", "dict_len", "truthy", "dict_get", "pyeval_str", "at", "is_none"}
+                 "local", "ext", "box_bool", "tl_get", "raw_tq_ok", "is_blank", "attr_of", "eq_str", "mro_of", "as_dict", "as_list", "as_set", "seq_len", "dict_len", "truthy", "dict_get", "pyeval_str", "at", "is_none"}
     SPEC_CONSTS = {}
 
     def bi_card(self, node, st, fr):
@@ -677,3 +686,11 @@ class BuiltinMixin:
         a = self.ev(node.args[0], st, fr)
         b = self.ev(node.args[1], st, fr)
         return SV(self.box(a) == self.box(b), "bool")
+
+    def bi_ext(self, node, st, fr):
+        """ext("name", args...): result of the assumed external `name` (same function symbol as in the code)"""
+        name = ast.literal_eval(node.args[0])
+        return self.call_named(name, [self.ev(a, st, fr) for a in node.args[1:]], {}, st, fr, node)
+
+    def bi_box_bool(self, node, st, fr):
+        return SV(self.voc.B2V(self.evb(node.args[0], st, fr)), "any")
